@@ -281,31 +281,8 @@ def _streams(r):
 def _r5_routes(run):
     project = run.project
     ev = sym.make_evaluator(project, T, [])
-    # (a) whoever receives a coordinate system hands exactly that one to every callee that takes one
-    n_fwd = 0
-    for f in project.py_funcs():
-        if f.module.name != T or "coordsys" not in f.params():
-            continue
-        r = ev.run(f.node)
-        own = ("sym", "coordsys")
-        for e in r.events:
-            if e.kind != "call":
-                continue
-            g, binding = ev.bound_args(e.term)
-            if g is None or "coordsys" not in g.params():
-                continue
-            n_fwd += 1
-            run.call_sites += 1
-            if binding is None:
-                run.undecided("C04.R5", f, e.node, "cannot bind the arguments of %s" % show(e.term)[:80], kind="coordsys-binding")
-            elif "coordsys" not in binding:
-                run.violated("C04.R5", f, e.node, "%s calls %s without its coordinate system: the callee falls back to its default and builds the "
-                             "tiles of the other system" % (f.short, g.short), kind="coordsys-dropped", callee=g.short)
-            elif binding["coordsys"] != own:
-                run.violated("C04.R5", f, e.node, "%s passes coordsys=%s to %s instead of its own coordsys parameter" % (
-                    f.short, show(binding["coordsys"])[:60], g.short), kind="coordsys-replaced", callee=g.short)
-            else:
-                run.holds("C04.R5", f, e.node, "%s forwards its coordsys to %s" % (f.short, g.short))
+    # (a) whoever has a coordinate system in hand hands exactly that one to every callee that takes one (package-wide)
+    n_fwd = toastgeom.coordsys_forwarding(run, "C04.R5")
     if n_fwd < 4:
         run.undecided("C04.R5", None, None, "only %d coordsys-forwarding call sites found (4 confirmed by hand)" % n_fwd, kind="floor",
                       construct="<coordsys forwarding>", file="toasty/toast.py")
